@@ -73,7 +73,7 @@ def parse_table(s):
 
 def run(tier, seed, broken_proof=False):
     rng = random.Random(seed + 1818)
-    count = 120 if tier == "quick" else 1200
+    count = 300 if tier == "quick" else 2000
     cases = []
     for i in range(count):
         n = rng.randrange(1, 6 if tier == "quick" else 7)
